@@ -9,6 +9,7 @@ at every announced protocol point.  PROPERTY THEOREMS ONLY.
 -/
 import GoSandbox.Model.Rpc
 import GoSandbox.Gen.C16
+import GoSandbox.Model.ForkSkeleton
 namespace GoSandbox.Props.C16
 open GoSandbox.Model.Rpc
 
@@ -36,6 +37,53 @@ theorem C16_pdeathsig : Gen.C16.sysProcAttr.contains "Pdeathsig=syscall.SIGKILL"
 /-- **tracees die with the tracer**: PTRACE_O_EXITKILL is among the options set on every tracee
 (C09/C15: options are set at the first stop of every new tracee, before it is continued). -/
 theorem C16_exitkill : Gen.C16.ptraceOptions.contains "PTRACE_O_EXITKILL" = true := by decide +kernel
+
+open GoSandbox.Model.ForkSkeleton GoSandbox.Model.ForkOpts in
+private theorem count_opt' (a : Step) (b : Bool) (l : List Step) : (opt b l).count a = if b then l.count a else 0 := by
+  cases b <;> simp [opt]
+
+open GoSandbox.Model.ForkSkeleton GoSandbox.Model.ForkOpts in
+/-- **before the first stop**: PTRACE_O_EXITKILL only exists from the tracee's first stop on. For EVERY
+option set, the launch makes itself traceable exactly as often as it asks for SIGKILL on the death of its
+parent (PR_SET_PDEATHSIG), and with ptrace on it does both. (Statement about the launch skeleton, which C04
+ties to the regenerated forkAndExecInChild; the order — pdeathsig, parent check, then traceme — is the
+definition of `tracemeSteps` and is evaluated on a family below.) -/
+theorem C16_traced_child_asks_pdeathsig (o : Opts) :
+    (skeleton o).count Step.prctl_pdeathsig = (skeleton o).count Step.ptrace_traceme ∧
+    (o.ptrace = true → Step.prctl_pdeathsig ∈ skeleton o) := by
+  constructor
+  · unfold skeleton syncBlock mountSteps tracemeSteps
+    have hm : ∀ n : Nat, (List.flatMap (fun _ => [Step.mkdirat, Step.mount] ++ opt o.roBindMount [Step.statfs, Step.mount_remount]) (List.range n)).count Step.prctl_pdeathsig = 0 := by
+      intro n; apply List.count_eq_zero.mpr; simp [opt]
+    have hm2 : ∀ n : Nat, (List.flatMap (fun _ => [Step.mkdirat, Step.mount] ++ opt o.roBindMount [Step.statfs, Step.mount_remount]) (List.range n)).count Step.ptrace_traceme = 0 := by
+      intro n; apply List.count_eq_zero.mpr; simp [opt]
+    have hr : (List.replicate o.nRlimits Step.prlimit64).count Step.prctl_pdeathsig = 0 := by
+      apply List.count_eq_zero.mpr; simp
+    have hr2 : (List.replicate o.nRlimits Step.prlimit64).count Step.ptrace_traceme = 0 := by
+      apply List.count_eq_zero.mpr; simp
+    simp only [List.count_append, count_opt', hm, hm2, hr, hr2]
+    cases o.ptrace <;> cases o.seccomp <;> simp (config := {decide := true}) [List.count_cons] <;> (repeat' split) <;> simp
+  · intro h
+    unfold skeleton tracemeSteps
+    simp only [List.mem_append, List.mem_cons]
+    cases hs : o.seccomp <;> simp [h, hs, opt]
+
+open GoSandbox.Model.ForkSkeleton GoSandbox.Model.ForkOpts in
+/-- the order on a family (kernel-evaluated; a bounded statement): for all 2^9 settings of the options that
+shape the launch around the trace point (seccomp, sync callback, late cgroup unshare, credential, capability
+drop, stop-before-seccomp, user namespace, pid namespace, exec descriptor), with ptrace on: the parent-death
+request comes before the first PTRACE_TRACEME, and the parent check sits between them unless the pid
+namespace is new -/
+theorem C16_pdeathsig_before_traceme_family :
+    ((List.range 512).all fun n =>
+      let b (i : Nat) : Bool := n / 2 ^ i % 2 == 1
+      let o : Opts := { ptrace := true, seccomp := b 0, syncFunc := b 1, ucas := b 2, cred := b 3, dropCaps := b 4, stopBefore := b 5,
+                        newUser := b 6, newPid := b 7, execFile := if b 8 then 9 else 0, nMounts := 1, nRlimits := 1 }
+      let l := skeleton o
+      match l.findIdx? (· == Step.prctl_pdeathsig), l.findIdx? (· == Step.ptrace_traceme) with
+      | some i, some j => i < j && (o.newPid || l.getD (i + 1) Step.execve == Step.getppid) && (j == i + (if o.newPid then 1 else 2))
+      | _, _ => false) = true := by
+  decide +kernel
 
 /-! non-vacuity: the crash rule is exercised from states with messages in flight -/
 example : (reachable ⟨true, .execve false .runs⟩).any (fun s => !s.h2c.isEmpty && s.c == .started) = true := by decide +kernel
